@@ -392,6 +392,18 @@ class G:
             for s in all_subs:
                 self.fill_sub(s)
                 self.subs.append(s)
+        # a global variable whose only initialisation is inside a subroutine that main calls first: main (and the
+        # other routines) then load a slot that their own code never stores
+        setup_call = []
+        mine = [v for v in self.pre_init.get(None, []) if v.slot is None or True]
+        if cfg.subs > 0 and mine and cfg.version >= 4 and r.random() < 0.3:
+            self.note("global initialised in a subroutine")
+            moved = [v for v in mine if r.random() < 0.7] or mine[:1]
+            self.pre_init[None] = [v for v in mine if v not in moved]
+            setup = Sub(len(self.subs), "setup" + str(len(self.subs)), [], N, None)
+            setup.body = ("seq", [("store", v, ("int", r.randrange(0, 5)) if v.ttype == U else ("bytes", b"g")) for v in moved])
+            self.subs.append(setup)
+            setup_call = [("call", setup, [])]
         body = self.stmts(cfg.max_depth, r.choice(range(1, cfg.max_stmts + 1)))
         tail = r.random()
         if tail < 0.4:
@@ -401,7 +413,7 @@ class G:
         else:
             last = self.expr(U, cfg.max_depth - 1)
         init = [("store", v, ("int", 0) if v.ttype == U else ("bytes", b"")) for v in self.pre_init.get(None, [])]
-        main = ("seq", init + body + [last])
+        main = ("seq", setup_call + init + body + [last])
         return Program(cfg.mode, main, self.vars, self.subs, self.dvars, self.mvars)
 
 
